@@ -32,7 +32,7 @@ func coarseCause(c string) string {
 	}
 	if strings.HasPrefix(c, "other:") {
 		t := strings.TrimPrefix(c, "other:")
-		if t == "undefinedVariable" || t == "forElse" || t == "notExist" {
+		if t == "undefinedVariable" || t == "forElse" || t == "notExist" || t == "includeDepth" {
 			return c
 		}
 		if strings.HasPrefix(t, "located:") {
